@@ -99,3 +99,33 @@ func init() {
 		return nil
 	}
 }
+
+// (*bc.Hash).String is proto.CompactTextString(h), which for a type with a
+// MarshalText method prints that text: the 64 lower-case hex digits of
+// V0..V3 (big endian). The protobuf packages are nop packages for the engine
+// (String would return ""), which silently changed the casper fork-choice
+// tie-break on Hash.String(); modelled exactly here, also for symbolic words.
+func init() {
+	intrinsics["(*github.com/bytom/bytom/protocol/bc.Hash).String"] = func(in *Interp, fn *ssa.Function, a []Value) Value {
+		p, ok := a[0].(*PtrV)
+		if !ok || p.obj == nil {
+			panic(in.unsupported("Hash.String on a nil hash"))
+		}
+		sv, ok := in.load(p).(*StructV)
+		if !ok || len(sv.f) < 4 {
+			panic(in.unsupported("Hash.String: unexpected representation"))
+		}
+		ts := in.ts
+		var out []*Term
+		for w := 0; w < 4; w++ {
+			word := sv.f[w].(*Term)
+			for nib := 15; nib >= 0; nib-- {
+				n := ts.ZExt(ts.Extract(word, nib*4+3, nib*4), 8)
+				digit := ts.Add(n, ts.ConstU(8, '0'))
+				letter := ts.Add(n, ts.ConstU(8, 'a'-10))
+				out = append(out, ts.Ite(ts.ULt(n, ts.ConstU(8, 10)), digit, letter))
+			}
+		}
+		return &StrV{b: out}
+	}
+}
